@@ -557,7 +557,7 @@ pub fn correlate_px(px: &mut [[f32; 3]], seed: u64, feedback: Option<&dyn Fn([f3
     for i in 1..px.len() {
         if left == 0 {
             // a mode is kept for a short run, so that chains (slow ramps, repeated feedback) occur
-            mode = e.below(12);
+            mode = e.below(13);
             left = 1 + e.below(6);
         }
         left -= 1;
@@ -590,6 +590,12 @@ pub fn correlate_px(px: &mut [[f32; 3]], seed: u64, feedback: Option<&dyn Fn([f3
                 let r = [prev[1], prev[2], prev[0]];
                 if in_domain(r) {
                     px[i] = r;
+                }
+            }
+            8 => {
+                // alternation A B A: the pixel before the previous one comes back
+                if i >= 2 {
+                    px[i] = px[i - 2];
                 }
             }
             6 | 7 => {
